@@ -45,6 +45,18 @@ func vfBlockSize(b *types.Block) int {
 func vfCancelReceiving(br *BlocksChunkReceiver, err error, hasNext bool) {
 	br.status = receiverStatusCanceled
 	br.actor.TellRequest(message.SyncerSvc, &message.GetBlockChunksRsp{Seq: br.syncerSeq, ToWhom: br.peer.ID(), Err: err})
+	interval := br.timeout.Sub(time.Now())
+	if !hasNext || interval <= 0 {
+		br.finishReceiver()
+	}
+}
+
+// vfC18Init is the node's start-up initialisation of the block size limits (chain.Init with the default 1 MiB body
+// limit); without it chain.MaxBlockSize() is 0 and every block is "too big".
+func vfC18Init() {
+	if err := chain.Init(1<<20, "", false, 0, 0); err != nil {
+		panic(err)
+	}
 }
 
 func vfC18Block(tag string, l int) *types.Block {
@@ -70,6 +82,7 @@ func vfC18Digest(b *types.Block) []byte { return (&types.Block{Header: b.Header}
 //   - too many / unexpected / oversized / too few blocks, a non-OK status or an empty list cancel with the matching error.
 // C18.e (receiver side): stored => H(header) == requested[i]; fails because only the Hash FIELD is compared (F8).
 func VF_C18_d() {
+	vfC18Init()
 	maxN := vf.Param("maxN", 2)
 	l := vf.Param("fieldLen", 1)
 	n := 1 + vf.Choice("n", maxN)
@@ -93,6 +106,7 @@ func VF_C18_d() {
 	br.handleInWaiting(nil, body)
 
 	if br.status == receiverStatusFinished && len(actor.told) == 0 {
+		vf.Reach("C18.d.timeout")
 		// the receiver's deadline passed before this chunk arrived (clock is arbitrary): nothing is stored, the request
 		// is consumed, the syncer is not told (it has given up already)
 		for i := 0; i < n; i++ {
@@ -132,7 +146,11 @@ func VF_C18_d() {
 			vf.Assert(peer.consumed == 1, "C18.d")
 		} else {
 			vf.Assert(rsp.Blocks == nil, "C18.d")
-			vf.Assert(br.status == receiverStatusCanceled, "C18.d")
+			vf.Assert(br.status != receiverStatusWaiting, "C18.d") // no further block is accepted for this request
+			if !body.HasNext {
+				vf.Assert(br.status == receiverStatusFinished, "C18.d")
+				vf.Assert(peer.consumed == 1, "C18.d")
+			}
 			switch rsp.Err {
 			case message.RemotePeerFailError:
 				vf.Assert(body.Status != types.ResultStatus_OK, "C18.d")
@@ -171,6 +189,7 @@ func VF_C18_d() {
 // C18.e (sync manager): HandleBlockProducedNotice and HandleGetBlockResponse forward a received block to the chain
 // service (message.AddBlock) without recomputing its id: forwarded => Hash == H(header) fails for a forged Hash (F8).
 func VF_C18_e_forward() {
+	vfC18Init()
 	l := vf.Param("fieldLen", 1)
 	actor := &vfActor{}
 	peer := &vfPeer{}
